@@ -25,6 +25,7 @@ type gen struct {
 	bump    uint64
 	datacap uint64
 	tip     uint64
+	sparse  bool // the block being built mostly leaves accounts out (a reorg to it loses txs)
 	multi   bool // blocks may carry several accounts (then no abrupt stops are generated)
 	chainAc int  // the only account that appears in blocks when !multi
 	txs     []*txSpec
@@ -229,6 +230,9 @@ func (g *gen) child(parent *blockSpec, deep bool) *blockSpec {
 		if !g.multi {
 			in = a == g.chainAc && g.r.Chance(4, 5)
 		}
+		if g.sparse && g.r.Chance(3, 4) {
+			in = false
+		}
 		if !in {
 			if g.r.Chance(1, 5) { // funds received
 				b.bals[a] += uint64(g.r.Intn(100000))
@@ -266,27 +270,29 @@ func (g *gen) blockByID(id uint64) *blockSpec { return g.blocks[id] }
 
 func (g *gen) opReset() {
 	var nb *blockSpec
-	switch k := g.r.Intn(12); {
+	switch k := g.r.Intn(14); {
 	case k < 7:
 		nb = g.child(g.head, false)
-	case k < 9 && g.head.id != 0: // sibling / uncle reorg
+	case k < 11 && g.head.id != 0: // sibling / uncle reorg; a sparse sibling loses the old branch's txs (reinjection)
 		p := g.blockByID(g.head.parent)
 		if g.r.Chance(1, 3) && p.id != 0 {
 			p = g.blockByID(p.parent)
 		}
+		g.sparse = g.r.Chance(1, 2)
 		nb = g.child(p, false)
 		if g.r.Chance(1, 2) {
 			nb = g.child(nb, false)
 		}
-	case k == 9 && g.head.id != 0: // back to an ancestor
+		g.sparse = false
+	case k == 11 && g.head.id != 0: // back to an ancestor
 		nb = g.blockByID(g.head.parent)
-	case k == 10:
+	case k == 12:
 		nb = g.child(g.head, true)
 	default:
 		nb = g.child(g.head, false)
 	}
 	// finality: never decreases, sometimes jumps to the new head
-	switch g.r.Intn(4) {
+	switch g.r.Intn(6) {
 	case 0:
 		if nb.num > g.final {
 			g.final = nb.num
